@@ -15,8 +15,8 @@ RULE = ("cases = structured matrices with bushy and chain-like elimination trees
 ASSUMPTIONS = ["interleavings between two hook points are not separated in controlled mode (free mode samples them)",
                "the at-least-once half of 'exactly once' is decided numerically by the reconstruction bound"]
 BUDGET = {
-    "quick": {"examples": 21000, "workers": 14, "time_budget": 80, "variants": ["asan"]},
-    "thorough": {"examples": 250000, "workers": 14, "time_budget": 1300, "variants": ["asan", "vendor"], "variant_share": {"asan": 0.75, "vendor": 0.25}},
+    "quick": {"examples": 21000, "workers": 14, "time_budget": 80, "variants": ["asan", "omp"], "variant_share": {"asan": 0.79, "omp": 0.21}},
+    "thorough": {"examples": 250000, "workers": 14, "time_budget": 1300, "variants": ["asan", "vendor", "omp", "long"], "variant_share": {"asan": 0.5, "vendor": 0.15, "omp": 0.25, "long": 0.1}},
 }
 FAMS = ["arrow", "blockdiag", "forest", "grid", "star", "banded", "chain", "random", "staircase"]
 
